@@ -818,12 +818,86 @@ def _(e, st, raw, n, a, m):
     return strip_chars(e, st, s, lambda c: ch_eq(c, pat[0]), lambda kept: ('str', kept))
 
 
-@summary(r'^<Chars as Iterator>::filter$')
-def _(e, st, raw, n, a, m): return [(T, ('filter', a[0], a[1]))]
+# ---- lazy adaptor pipelines over the characters / bytes of a string: filter / map with the crate's own closures, collected into a String
+def _fn_value_call(e, s2, f, args, post):
+    """call a closure or function value; post(state, result) continues"""
+    if f[0] == 'closure' or (f[0] == 'zst' and 'closure@' in f[1]):
+        return ('tailcall', e.closure_body(('closure', f[1])), [f] + args, post)
+    name = f[1].replace('ZeroSized: ', '') if f[0] in ('fn', 'zst') else None
+    if name is None: raise Unsupported('call of function value ' + str(f)[:80])
+    mm = re.match(r'^fn\(.*\) (?:-> .* )?\{(.*)\}$', name)
+    if mm: name = mm.group(1)
+    tgt = e.prog.resolve(name)
+    if tgt: return ('tailcall', tgt, args, post)
+    if re.match(r'^<char as From<u8>>::from$', mirparse_strip(name)): return post(s2, args[0])
+    outs = dispatch(e, s2, name, args)
+    if len(outs) == 1 and outs[0][0] is T and not callable(outs[0][1]) and not (isinstance(outs[0][1], tuple) and outs[0][1] and outs[0][1][0] == 'tailcall'):
+        return post(s2, outs[0][1])
+    raise Unsupported('function value with several outcomes inside an iterator adaptor: ' + name[:60])
 
 
-@summary(r'^<Filter<Chars, .*> as Iterator>::collect$|^<std::iter::Filter<Chars, .*> as Iterator>::collect$')
-def _(e, st, raw, n, a, m): raise Unsupported('collect of a filtered char iterator (closure predicate)')
+def run_pipe(e, st, elems, stages):
+    """the collected String: elements pass the stages in order, one element after the other (as the lazy adaptors do)"""
+    def element(s2, idx, kept):
+        if idx == len(elems): return ('str', tuple(kept))
+        s2.steps += 1
+        return stage(s2, idx, kept, elems[idx], 0)
+
+    def stage(s2, idx, kept, val, k):
+        if k == len(stages): return element(s2, idx + 1, kept + [val])
+        kind, f = stages[k]
+        if kind == 'map':
+            return _fn_value_call(e, s2, f, [val], lambda s3, r: stage(s3, idx, kept, r, k + 1))
+
+        def post(s3, r):
+            if r is True or r is False or not is_sym(r):
+                return stage(s3, idx, kept, val, k + 1) if r else element(s3, idx + 1, kept)
+            return [(r, lambda s4: stage(s4, idx, kept, val, k + 1)), (b_not(r), lambda s4: element(s4, idx + 1, kept))]
+        return _fn_value_call(e, s2, f, [e.temp_ref(s2, val)], post)
+    return [(T, lambda s2: element(s2, 0, []))]
+
+
+@summary(r'^core::str::<impl str>::is_ascii$')
+def _(e, st, raw, n, a, m):
+    return [(T, b_and(*[(c < 128) for c in sv(e, st, a[0])[1]]))]
+
+
+@summary(r'^core::str::<impl str>::bytes$|^core::str::<impl str>::as_bytes$')
+def _(e, st, raw, n, a, m):
+    chars = sv(e, st, a[0])[1]
+    sym = [c >= 128 for c in chars if is_sym(c)]
+    if any((not is_sym(c)) and c >= 128 for c in chars) or (sym and e.check(z3.Or(sym)) != z3.unsat):
+        raise Unsupported('bytes of a string that may hold non-ASCII characters (UTF-8 encoding is not modelled)')
+    if n.endswith('as_bytes'): return [(T, ('vec', tuple(chars)))]
+    return [(T, ('pipe', tuple(chars), ()))]
+
+
+@summary(r'^<Chars as Iterator>::(filter|map)\b|^<(?:std::str::)?Bytes as Iterator>::(filter|map)\b')
+def _(e, st, raw, n, a, m):
+    it = a[0]; kind = m.group(1) or m.group(2)
+    elems = it[1][it[2]:] if it[0] == 'chars' else it[1]
+    return [(T, ('pipe', tuple(elems), ((it[2] if it[0] == 'pipe' else ()) + ((kind, a[1]),))))]
+
+
+@summary(r'^<(?:std::iter::)?(?:Filter|Map)<.*> as Iterator>::(filter|map)\b')
+def _(e, st, raw, n, a, m):
+    it = a[0]
+    if it[0] != 'pipe': raise Unsupported('adaptor over ' + str(it)[:40])
+    return [(T, ('pipe', it[1], it[2] + ((m.group(1), a[1]),)))]
+
+
+@summary(r'^<(?:std::iter::)?(?:Filter|Map)<.*> as Iterator>::collect\b|^<(?:std::str::)?Bytes as Iterator>::collect\b')
+def _(e, st, raw, n, a, m):
+    it = a[0]
+    if it[0] != 'pipe' or 'String' not in raw: raise Unsupported('collect of %s into %s' % (str(it)[:30], raw[-40:]))
+    return run_pipe(e, st, list(it[1]), list(it[2]))
+
+
+@summary(r'^core::num::<impl u8>::is_ascii_(whitespace|digit)$')
+def _(e, st, raw, n, a, m):
+    c = deref_all(e, st, a[0])
+    if m.group(1) == 'digit': return [(T, is_digit(c))]
+    return [(T, b_or(*[c == w for w in (0x20, 0x9, 0xA, 0xC, 0xD)]))]
 
 
 @summary(r'^<Chars as Iterator>::next$')
